@@ -14,6 +14,8 @@ Property theorems only; helper lemmas and the specification vocabulary live in
 * `insertPos n k` / `popPos n k` — Python's index normalisation for `list.insert` / `list.pop`;
 * `expandLine after x a m` := `if m then (if after then [a, x] else [x, a]) else [a]`;
 * `matchCount n row` := number of `true` among the first `n` row entries;
+* `idsOf items` := the committed line numbers carried by the list elements, in order;
+  `IdsDistinct items` := `(idsOf items).Nodup`; `IdsSub new old` := `(idsOf new).Sublist (idsOf old)`;
 * `Forest`, `ancestors` are the C03 vocabulary.
 
 All theorems are about `Ccp.Model.Edit.step`, for all states and payloads.  A state holds
@@ -182,6 +184,27 @@ theorem handle_position (s : S) (h : Nat) :
     have h4 := (hinv hd).2.1
     rw [h3, posOf_committed, h4]
 
+/-- **Identities are tracked**: every operation either re-commits (the list then holds the
+objects `0..n-1` of the new tree) or leaves a sub-sequence of the committed objects the
+list held before — list operations move objects around and add fresh lines, they never
+duplicate or invent a committed object.  Hence "the committed ids in the list are
+pairwise distinct" (`IdsDistinct`) is preserved by every step. -/
+theorem ids_track_objects (s : S) (op : Op) :
+    ((∃ t, (step s op).1.items = committedItems t) ∨ IdsSub (step s op).1.items s.items) ∧
+    (IdsDistinct s.items → IdsDistinct (step s op).1.items) :=
+  ⟨step_ids s op, step_idsDistinct s op⟩
+
+/-- … it holds initially, hence in every reachable state, committed or not … -/
+theorem reachable_ids_distinct (cfg : Cfg) (auto : Bool) (width : Nat) (ls : List Str) (ops : List Op) :
+    IdsDistinct (run (init cfg auto width ls) ops).items :=
+  run_idsDistinct _ ops (idsDistinct_committed _)
+
+/-- … and then an object is at no more than one position: the position `posOf` returns is
+the only one holding the object `h`. -/
+theorem handle_unique (s : S) (hd : IdsDistinct s.items) (h p q : Nat)
+    (hp : (s.items[p]?).map Item.id = some (some h)) (hq : (s.items[q]?).map Item.id = some (some h)) :
+    p = q := idsDistinct_unique hd hp hq
+
 /-- **`obj.insert_before(txt)`** on the object `h`, currently at position `p` (also on a
 state with uncommitted changes — the code finds the object by identity): exactly one
 line is added, at position `p`, directly before the object's line (which moves to
@@ -232,6 +255,22 @@ theorem objInsertAfter_spec (s : S) (h p : Nat) (txt : Str) (hnf : NoFilter s)
   have hf := inserted_frame s.texts (p + 1) txt (by omega)
   simp only [new, ht]
   exact ⟨hr, trivial, hf.1, hf.2.2.2.1 p (by omega), hf.2.1, hf.2.2.1⟩
+
+/-- On a state without uncommitted changes satisfying C07's invariant (every reachable
+such state) a handle below the length is its own position … -/
+theorem committed_handle (s : S) (h : Nat) (hd : s.dirty = false) (hinv : FreshInv s)
+    (hh : h < s.texts.length) : posOf s.items h = some h := by
+  rw [(handle_position s h).2 hd hinv, if_pos hh]
+
+/-- … so there the object-level inserts add exactly one line at `h` / `h + 1`, adjacent to
+line `h`. -/
+theorem objInsert_committed (s : S) (h : Nat) (txt : Str) (hnf : NoFilter s)
+    (hd : s.dirty = false) (hinv : FreshInv s) (hh : h < s.texts.length)
+    (hb : ¬ (isBlank txt = true ∧ s.cfg.ignoreBlank = true)) :
+    (step s (.objInsBefore h txt)).1.texts = s.texts.take h ++ txt :: s.texts.drop h ∧
+    (step s (.objInsAfter h txt)).1.texts = s.texts.take (h + 1) ++ txt :: s.texts.drop (h + 1) :=
+  ⟨(objInsertBefore_spec s h h txt hnf (committed_handle s h hd hinv hh) hb).2.1,
+   (objInsertAfter_spec s h h txt hnf (committed_handle s h hd hinv hh) hb).2.1⟩
 
 /-- A blank payload under `ignore_blank_lines` is refused with `InvalidParameters`. -/
 theorem objInsert_blank_refused (s : S) (h p : Nat) (txt : Str)
@@ -314,6 +353,13 @@ theorem reSub_spec (s : S) (h p : Nat) (newText : Str) (hnf : NoFilter s)
     rw [edited_texts s hnf, setText_texts]; rfl
   · simp only [Edit.step, hp, hs, Bool.false_eq_true, if_false, if_pos he]
   · simp only [Edit.step, hp, hs, if_true]
+
+/-- On a committed state (`committed_handle`) `replace_text` / `re_sub` change line `h` itself. -/
+theorem replaceText_committed (s : S) (h : Nat) (before after : Str) (hnf : NoFilter s)
+    (hd : s.dirty = false) (hinv : FreshInv s) (hh : h < s.texts.length) :
+    (step s (.replaceText h before after)).1.texts
+      = s.texts.set h (pyReplace before after (s.texts.getD h [])) :=
+  (replaceText_spec s h h before after hnf (committed_handle s h hd hinv hh)).2
 
 /-! ## append_to_family -/
 
@@ -553,6 +599,9 @@ example : exDirty.dirty = true ∧ posOf exDirty.items 0 = some 1 ∧ posOf exDi
     (step exDirty (.replaceText 4 "Eth1".toList "Po".toList)).1.texts[5]? = some "interface Po0".toList ∧
     posOf (step exDirty (.pop 1)).1.items 0 = none ∧
     (step (step exDirty (.pop 1)).1 (.objInsAfter 0 "y".toList)).2 = .error .dirtyHandle := by decide
+/-- identities after uncommitted edits: the fresh line has none, the others keep theirs -/
+example : idsOf exDirty.items = [0, 1, 2, 3, 4] ∧ exDirty.items.map Item.id = [none, some 0, some 1, some 2, some 3, some 4] ∧
+    idsOf (step exDirty (.pop 1)).1.items = [1, 2, 3, 4] := by decide
 /-- `handle_position`, second part: on a committed state a handle is its own position -/
 example : posOf exOn.items 3 = some 3 ∧ posOf exOn.items 5 = none := by decide
 /-- refused: two levels deeper; `delete` through a handle on a dirty state -/
